@@ -329,7 +329,9 @@ def run_reentrant(case, st):
     callbacks that were subscribed when it was received, once each, in subscription order."""
     import itertools
     import canopen
-    actions = ("none", "unsub-self", "unsub-next", "unsub-prev", "sub-new", "unsub-all-others")
+    # ("nested": the callback makes the library dispatch another frame - e.g. it sends on a looped-back interface -
+    # before it goes on)
+    actions = ("none", "unsub-self", "unsub-next", "unsub-prev", "sub-new", "unsub-all-others", "nested", "nested+unsub-self")
     for k in (1, 2, 3):
         for combo in itertools.product(actions, repeat=k):
             if "combo" in case and list(combo) != case["combo"]:
@@ -345,6 +347,9 @@ def run_reentrant(case, st):
                 def cb(cid, data, ts):
                     log.append(i)
                     act = combo[i]
+                    if act.startswith("nested"):
+                        net.notify(0x124, bytearray(b"\x09"), ts)
+                        act = act[7:] or "none"
                     try:
                         if act == "unsub-self":
                             net.unsubscribe(0x123, cbs[i])
@@ -364,6 +369,7 @@ def run_reentrant(case, st):
             cbs.extend(mk(i) for i in range(k))
             for cb in cbs:
                 net.subscribe(0x123, cb)
+            net.subscribe(0x124, lambda cid, data, ts: log.append("n"))
             st.evaluations += 1
             st.transitions += 1
             if any(a != "none" for a in combo):
@@ -374,7 +380,11 @@ def run_reentrant(case, st):
             except Exception as e:  # noqa: BLE001
                 st.violation(f"C10:reentrant:raises:{type(e).__name__}", rc, "frame delivered", repr(e)[:100])
                 continue
-            want = list(range(k))
+            want = []
+            for i in range(k):
+                want.append(i)
+                if combo[i].startswith("nested"):
+                    want.append("n")
             if log != want:
                 kind = "skipped" if len(log) < len(want) else ("delivered-to-late-subscriber" if "new" in log else "order")
                 st.violation(f"C10:reentrant:{kind}", rc, want, log)
